@@ -203,7 +203,7 @@ func (d *driver) feed(s step) {
 		w.versions = nil // (MEDIA-SEQUENCE monotonicity is per incarnation; the playlist on disk stays the last one seen)
 		// segment names carry the wall-clock millisecond of their creation: a re-publish happens later (the
 		// fake clock is shared by all executions; it only ever moves forward)
-		hls.Clock.Add(time.Second)
+		hls.Clock.Add(7 * time.Millisecond) // (a publisher that comes straight back: the names of the two publishes differ by their millisecond stamp only)
 		w.m = hls.NewMuxer("s", &hls.MuxerConfig{OutPath: w.root + "/", FragmentDurationMs: fragMs, FragmentNum: w.c.FragNum, DeleteThreshold: w.c.DelThr, CleanupMode: w.c.Cleanup}, nil)
 		w.m.Start()
 		v, a := 7, 10
